@@ -424,6 +424,9 @@ class CodeBuilder:
             if (
                 not self.allow_postponed_evaluation
                 or not config.allow_postponed_evaluation
+                # a method built for a call dialect goes to the cache of that
+                # dialect: a stub there would find itself again forever
+                or self.dialect is not None
             ):
                 raise
             self._add_unpack_method_lines_lazy(method_name)
@@ -908,6 +911,9 @@ class CodeBuilder:
             if (
                 not self.allow_postponed_evaluation
                 or not config.allow_postponed_evaluation
+                # a method built for a call dialect goes to the cache of that
+                # dialect: a stub there would find itself again forever
+                or self.dialect is not None
             ):
                 raise
             self._add_pack_method_lines_lazy(method_name)
